@@ -26,6 +26,7 @@ var generators = map[string]genFn{
 	"slowhb": genSlowHB,
 	"healthrace": genHealthRace,
 	"acklosttakeover": genAckLostTakeover,
+	"acklosthb": genAckLostHB,
 	"lease": genLease,
 	"restart": genRestart,
 	"mix": genMix,
@@ -190,6 +191,9 @@ func runScenarioMode(t *testing.T, mode string, rep *Report, rng *rand.Rand, n i
 			seed := mix(rep.Seed, int64(k), 99)
 			sc := g(rand.New(rand.NewSource(seed)), seed)
 			sc.Name = fmt.Sprintf("%s#%d", sc.Name, k)
+			if mix(seed, 7711)%4 == 0 {
+				sc.MockErrs = true // every fourth scenario of every generator: the mock store's wording of refusals
+			}
 			if p := os.Getenv("NLE_OUT"); p != "" {
 				os.WriteFile(p+"/current-scenario.json", []byte(sc.JSON()), 0o644)
 			}
